@@ -136,7 +136,9 @@ def mc_jobs(ctx):
     rng = ctx.rng
     quick = ctx.quick()
     sess, cli = [], []
-    for name, n, ops in mc.scenarios(thorough=not quick):
+    scen = mc.scenarios(thorough=not quick)
+    scen.sort(key=lambda s: -len(s[2]))            # the long runs (width maxima) start first
+    for name, n, ops in scen:
         sess.append(("scenario/" + name, n, ops))
         if name != "width-3-maximum" or not quick:
             cli.append(("cli-scenario/" + name, n, ops))
@@ -144,31 +146,33 @@ def mc_jobs(ctx):
         sess.append(("wide/" + name, n, ops))
         cli.append(("cli-wide/" + name, n, ops))
     # every interleaving of two clients with <= 2 operations each, from five start states
+    # (quick: every 3rd / 10th of them, offset drawn from the seed; thorough: all)
     for start in ("S2", "S5", "S0", "S1", "S4"):
-        every = 1 if (start in ("S2", "S5") or not quick) else 4
+        every = 1 if not quick else (3 if start in ("S2", "S5") else 10)
         off = rng.randrange(every)
         for k, (name, ops) in enumerate(mc.exhaustive(start, 2, WIDTHS)):
             if k % every == off:
                 sess.append(("exh2/" + name, 2, ops))
     # three operations each: sampled
-    for start, n in (("S2", 500 if quick else 12000), ("S4", 400 if quick else 8000), ("S0", 300 if quick else 8000),
-                     ("S5", 300 if quick else 6000)):
+    for start, n in (("S2", 150 if quick else 12000), ("S4", 100 if quick else 8000), ("S0", 50 if quick else 8000),
+                     ("S5", 100 if quick else 6000)):
         for k, (name, ops) in enumerate(mc.sampled(rng, start, 3, WIDTHS, n)):
             sess.append(("smp3/%d/%s" % (k, name), 2, ops))
-    # longer random interleavings, two and three clients, one or two object ids
-    for k in range(400 if quick else 6000):
+    # longer random interleavings, two and three clients, one or two object ids, now and then
+    # explicit (colliding) commit metadata and other digest algorithms / content directories
+    for k in range(250 if quick else 6000):
         ncl = rng.choice([2, 3, 3])
         ids = rng.choice([["o"], ["o"], ["o", "p"]])
         sess.append(("rnd/%d" % k, ncl, mc.random_sequence(rng, ncl, rng.randint(6, 16), ids, [0, 1, 2, 3])))
-    for k in range(40 if quick else 600):
+    for k in range(20 if quick else 600):
         ncl = rng.choice([2, 3])
         cli.append(("cli-rnd/%d" % k, ncl, mc.random_sequence(rng, ncl, rng.randint(6, 14), ["o"], [0, 2, 3])))
-    for k, (name, ops) in enumerate(mc.sampled(rng, "S2", 2, WIDTHS, 40 if quick else 600)):
+    for k, (name, ops) in enumerate(mc.sampled(rng, "S2", 2, WIDTHS, 20 if quick else 600)):
         cli.append(("cli-smp2/%d/%s" % (k, name), 2, ops))
     return sess, cli
 
 
-def mc_judge(ctx, r, out, known_ids, stats):
+def mc_judge(ctx, r, out, stats):
     """one executed interleaving + what Coq answered; records evidence, known hits, violations"""
     steps = r["steps"]
     chk = mc.parse_check(out)
@@ -202,17 +206,15 @@ def mc_judge(ctx, r, out, known_ids, stats):
     if len(chk) != len(steps):
         common.corr_break(ctx, "Corr.CheckMultiClient.check_run returned %d steps for %d" % (len(chk), len(steps)), detail)
         return
-    known_from = next((i for i, c in enumerate(chk) if c[1]), None)
-    if known_from is not None:
-        stats["known_steps"] += 1
-    hit_known = False
+    # commits that repeat the metadata of a version known to someone (explicitly passed metadata):
+    # accepted ones are the "indistinguishable history" case - judged like everything else
+    for i, s in enumerate(steps):
+        if s["op"][0] == "commit" and not chk[i][1]:
+            stats["repeated_metadata_commits"] += 1
+            if s["rc"] == "ok":
+                stats["repeated_metadata_accepted"] += 1
     for i, s in enumerate(steps):
         if not s["problems"]:
-            continue
-        if known_from is not None and i >= known_from and "recreated-lineage" in known_ids:
-            if not hit_known:
-                ctx.known_hit("recreated-lineage")
-                hit_known = True
             continue
         if stats["violations"] < 8:
             ctx.violation("impl-violation", dict(detail, step=i, operation=s["op"], observed={"result": s["rc"], "detail": s["detail"],
@@ -231,12 +233,6 @@ def mc_judge(ctx, r, out, known_ids, stats):
                               dict(detail, step=i, operation=steps[i]["op"],
                                    observed={"result": steps[i]["rc"], "state_after": steps[i]["view"]}, model_check=out))
         stats["corr"] += 1
-    if known_from is not None and not any(s["problems"] for s in steps[known_from:]):
-        # the model says the known class was entered, the real commit showed nothing wrong: the
-        # classifier is wider than the defect
-        if stats["corr"] < 4:
-            common.corr_break(ctx, "KnownC14.c14_recreated_lineage holds at step %d but the oracle found nothing wrong" % known_from, detail)
-        stats["corr"] += 1
 
 
 def mc_stage(ctx, vh):
@@ -250,21 +246,27 @@ def mc_stage(ctx, vh):
     rocfl = common.build_rocfl_release()
     base, real = mc_scratch(ctx)
     try:
+        import time
+        t0 = time.time()
         sess_jobs, cli_jobs = mc_jobs(ctx)
         res = mc.run_all("sess", vh, os.path.join(base, "s"), sess_jobs)
+        t1 = time.time()
         res += mc.run_all("cli", rocfl, os.path.join(base, "c"), cli_jobs)
+        t2 = time.time()
     finally:
         if real:
             shutil.rmtree(real, ignore_errors=True)
     outs = common.coq_eval("c14mc", MC_IMPORTS, [r["term"] for r in res], batch=200)
-    known_ids = {k["id"] for k in ctx.known}
-    stats = {"groups": {}, "ops": {}, "raced": 0, "known_steps": 0, "violations": 0, "corr": 0, "wide": {}}
+    common.log("C14 multi-client: %d library runs %.0f s, %d CLI runs %.0f s, Coq comparison %.0f s"
+               % (len(sess_jobs), t1 - t0, len(cli_jobs), t2 - t1, time.time() - t2))
+    stats = {"groups": {}, "ops": {}, "raced": 0, "repeated_metadata_commits": 0, "repeated_metadata_accepted": 0, "violations": 0, "corr": 0, "wide": {}}
     for r, o in zip(res, outs):
-        mc_judge(ctx, r, o, known_ids, stats)
+        mc_judge(ctx, r, o, stats)
     ctx.coverage["multiclient"] = {
         "interleavings": len(res), "steps": sum(len(r["steps"]) for r in res), "by_group": stats["groups"],
         "operation_results": stats["ops"], "interleavings_with_a_refused_racing_commit": stats["raced"],
-        "interleavings_entering_known_class": stats["known_steps"],
+        "commits_repeating_known_metadata": stats["repeated_metadata_commits"],
+        "commits_repeating_known_metadata_accepted": stats["repeated_metadata_accepted"],
         "violating_interleavings": stats["violations"], "model_disagreements": stats["corr"],
         "very_wide_paddings": stats["wide"],
     }
@@ -286,8 +288,8 @@ def replay(ctx, body):
         if real:
             shutil.rmtree(real, ignore_errors=True)
     outs = common.coq_eval("c14mc", MC_IMPORTS, [r["term"] for r in res])
-    stats = {"groups": {}, "ops": {}, "raced": 0, "known_steps": 0, "violations": 0, "corr": 0, "wide": {}}
-    mc_judge(ctx, res[0], outs[0], {k["id"] for k in ctx.known}, stats)
+    stats = {"groups": {}, "ops": {}, "raced": 0, "repeated_metadata_commits": 0, "repeated_metadata_accepted": 0, "violations": 0, "corr": 0, "wide": {}}
+    mc_judge(ctx, res[0], outs[0], stats)
     for i, s in enumerate(res[0]["steps"]):
         common.log("step %d %r -> %s %s" % (i, s["op"], s["rc"], "; ".join(s["problems"])))
     return ctx.finish(rule="replay of one interleaving")
@@ -341,9 +343,13 @@ def run_vnum(exe, cases):
 
 
 def run(ctx):
+    import time
+    t0 = time.time()
     proof = common.proof_stage(ctx)
+    t1 = time.time()
     vh = common.build_harness()
     vh_rel = build_harness_release()
+    common.log("C14: proof stage %.0f s, harness builds %.0f s" % (t1 - t0, time.time() - t1))
     ok, log = common.coq_make(["theories/Corr/CheckVnum.vo"])
     if not ok:
         raise common.BuildError("Corr/CheckVnum.v does not build:\n" + log[-3000:])
@@ -384,6 +390,6 @@ def run(ctx):
     return common.finish_with_proof(ctx, proof,
         rule="VersionNum cases: widths 0-12,20,u32::MAX x numbers around every 10^k and u32::MAX plus random; parse strings from a hostile pool plus random; distinct = distinct (input, outcome class). "
              "Multi-client: hand-written scenarios (purge + re-create under a staged copy with fewer/equal/more versions and other widths, 3-client races in every commit order, create/create race, width 1/2/3/11 maxima); "
-             "every interleaving of 2 clients x <= 2 operations each from {new, stage, commit, reset, purge} after 5 start states (quick: S2, S5 complete, the others every 4th), widths rotating over 0,2,3; "
+             "every interleaving of 2 clients x <= 2 operations each from {new, stage, commit, reset, purge} after 5 start states (quick: every 3rd from S2 and S5, every 10th from the others; thorough: all), widths rotating over 0,2,3; "
              "sampled interleavings with 3 operations each; random interleavings of 2-3 clients over 1-2 ids (6-16 steps); scenarios and samples again through the release CLI. "
              "distinct = distinct (backend, operation sequence, result classes); non-trivial = at least two clients act and some commit succeeds")
